@@ -41,6 +41,7 @@ type Ctx struct {
 	constAxioms  map[string][]*Term // facts attached to a constant, included when it is referenced
 	named        map[string]*Term
 	rawDTs       []string
+	noDefine     int
 }
 
 func NewCtx() *Ctx {
@@ -104,6 +105,10 @@ func (c *Ctx) Named(name string, s Sort) *Term {
 // Define introduces a fresh constant equal to t (a conservative extension).
 func (c *Ctx) Define(base string, t *Term) *Term {
 	if len(t.Args) == 0 && t.Q == "" {
+		return t
+	}
+	if c.noDefine > 0 {
+		// under a quantifier: a top-level definition would capture the bound variables
 		return t
 	}
 	k := c.Fresh(base, t.Sort)
